@@ -11,6 +11,7 @@ import HavocVerif.Driver.C10
 import HavocVerif.Driver.C11
 import HavocVerif.Driver.C12
 import HavocVerif.Driver.C13
+import HavocVerif.Driver.C14
 import HavocVerif.Driver.C15
 import HavocVerif.Driver.C16
 import HavocVerif.Driver.C18
@@ -43,6 +44,7 @@ def stepperFor (prop : String) : Option Stepper :=
   | "C11" => some ⟨DriverC11.St, {}, DriverC11.step⟩
   | "C12" => some ⟨DriverC12.St, {}, DriverC12.step⟩
   | "C13" => some (stateless DriverC13.step)
+  | "C14" => some (stateless DriverC14.step)
   | "C15" => some ⟨DriverC15.St, {}, DriverC15.step⟩
   | "C16" => some ⟨DriverC16.St, {}, DriverC16.step⟩
   | "C18" => some (stateless DriverC18.step)
